@@ -27,7 +27,10 @@ namespace
 template<typename PointType>
 void flipNormalTowardOriginCoordinate(const PointType & point, PointType & normal)
 {
-  if (normal.dot(point / point.norm()) > 0) {
+  // only the cartesian coordinates take part in the test: the homogeneous coordinate of
+  // the normal is not an output of the estimation and still holds the caller's value
+  constexpr size_t DIM = romea::core::PointTraits<PointType>::DIM;
+  if (normal.template head<DIM>().dot(point.template head<DIM>()) > 0) {
     normal *= -1;
   }
 }
